@@ -1289,6 +1289,11 @@ impl ServerSession {
             ],
         };
 
+        // The packets must be serialized in the same order they are returned (and therefore sent)
+        // in, as each packet's chunk headers are compressed against the packet serialized before it.
+        let reset_payload = reset_message.into_message_payload(self.get_epoch(), stream_id)?;
+        let reset_packet = self.serializer.serialize(&reset_payload, false, false)?;
+
         let stream_begin_payload =
             stream_begin_message.into_message_payload(self.get_epoch(), stream_id)?;
         let stream_begin_packet = self
@@ -1303,9 +1308,6 @@ impl ServerSession {
 
         let data2_payload = data2_message.into_message_payload(self.get_epoch(), stream_id)?;
         let data2_packet = self.serializer.serialize(&data2_payload, false, false)?;
-
-        let reset_payload = reset_message.into_message_payload(self.get_epoch(), stream_id)?;
-        let reset_packet = self.serializer.serialize(&reset_payload, false, false)?;
 
         Ok(vec![
             ServerSessionResult::OutboundResponse(reset_packet),
